@@ -11,15 +11,74 @@ def parsePresets (s : String) : Option (Option (List (Nat × List Int))) :=
     | [i, v] => do let i ← i.toNat?; let v ← csvInts v; pure (i, v)
     | _ => none)).map some
 
+/-- split a word list at the "|" words -/
+def splitBar (ws : List String) : List (List String) :=
+  let r := ws.foldl (fun (acc : List (List String) × List String) w => if w == "|" then (acc.1 ++ [acc.2], []) else (acc.1, acc.2 ++ [w])) ([], [])
+  r.1 ++ [r.2]
+
 def showOpt : Opt → String
   | .off => "off"
   | .preset i => s!"p{i}"
   | .custom v => "c" ++ ",".intercalate (v.map toString)
 
+def levelOfArgs (f0 f1 idx vals : String) : Level :=
+  let idxOk : Nat → Bool := if idx == "*" then fun _ => true else
+    match csvNats idx with | some l => fun i => l.contains i | none => fun _ => false
+  let perParam := (vals.splitOn "/").map (fun v => if v == "*" then none else csvInts v)
+  let valOk : Nat → Int → Bool := fun k x => match perParam.getD k none with
+    | none => true
+    | some l => l.contains x
+  { flag := fun bb => if bb then f1 == "1" else f0 == "1", index := idxOk, value := valOk }
+
+def subLevelOfArg (s : String) : Level :=
+  match s.splitOn ":" with
+  | [fl, v] =>
+    let ok : Int → Bool := if v == "*" then fun _ => true else
+      match csvInts v with | some l => fun x => l.contains x | none => fun _ => false
+    { flag := fun bb => if bb then fl.toList.getD 1 '0' == '1' else fl.toList.getD 0 '0' == '1', index := fun _ => true,
+      value := fun _ x => ok x }
+  | _ => { flag := fun _ => false, index := fun _ => false, value := fun _ _ => false }
+
+/-- one group of an `so S` line: `G base target presets f0 f1 idx vals` or `C base target presets f0 f1 idx pl ml tl` -/
+def parseGroup (ws : List String) : Option Group :=
+  match ws with
+  | ["G", base, target, presets, f0, f1, idx, vals] =>
+    match csvInts base, csvInts target, parsePresets presets with
+    | some b, some t, some ps => some (.simple b t ps (levelOfArgs f0 f1 idx vals))
+    | _, _, _ => none
+  | ["C", base, target, presets, f0, f1, idx, pl, ml, tl] =>
+    match csvInts base, csvInts target, parsePresets presets with
+    | some b, some t, some (some ps) =>
+      let idxOk : Nat → Bool := if idx == "*" then fun _ => true else
+        match csvNats idx with | some l => fun i => l.contains i | none => fun _ => false
+      some (.color b t ps { flag := fun bb => if bb then f1 == "1" else f0 == "1", index := idxOk,
+                            prim := subLevelOfArg pl, mat := subLevelOfArg ml, tf := subLevelOfArg tl })
+    | _, _, _ => none
+  | _ => none
+
+def showGOpt : GOpt → String
+  | .simple o => showOpt o
+  | .color .off => "off"
+  | .color (.preset i) => s!"p{i}"
+  | .color (.custom p m t) => "c" ++ showOpt p ++ "/" ++ showOpt m ++ "/" ++ showOpt t
+
+/-- `so S <tff of the base format> <tff wanted> | <group> | <group> | …` → the rows of `iter_source_parameter_options` -/
+def handleSoS (ws : List String) : String :=
+  match ws with
+  | tb :: tt :: "|" :: rest =>
+    let parts := VC2.Model.SeqHeader.splitBar rest
+    match parts.mapM parseGroup with
+    | some groups =>
+      let rows := iterSourceParameters (tb == "1") (tt == "1") groups
+      if rows.isEmpty then "-" else " | ".intercalate (rows.map (fun r => " ".intercalate (r.map showGOpt)))
+    | none => "bad-op"
+  | _ => "bad-op"
+
 /-- `so G <base> <target> <presets> <flagFalse 0/1> <flagTrue 0/1> <indices: * or csv> <values: per parameter * or csv, '/'-separated>`
     `so Z <csv> / <csv> / …` -/
 def handleSo (ws : List String) : String :=
   match ws with
+  | "S" :: rest => handleSoS rest
   | ["G", base, target, presets, f0, f1, idx, vals] =>
     match csvInts base, csvInts target, parsePresets presets with
     | some b, some t, some ps =>
